@@ -1263,6 +1263,7 @@ class ListNode(SyntaxNodeBase):
                 if id(node) in new_vals_cache:
                     new_vals_cache[id(node)] = shortcut
                     shortcut.nodes.clear()
+                    shortcut._shares_edge = False
                     break
         self._expand_shortcuts(new_vals, new_vals_cache)
         self._shortcuts = []
@@ -1387,7 +1388,11 @@ class ListNode(SyntaxNodeBase):
                 and not node.never_pad
             ):
                 node.padding = PaddingNode(" ")
-            if isinstance(last_node, ShortcutNode) and isinstance(node, ShortcutNode):
+            if (
+                isinstance(last_node, ShortcutNode)
+                and isinstance(node, ShortcutNode)
+                and node._shares_edge
+            ):
                 ret += node.format(last_node)
             else:
                 ret += node.format()
@@ -1553,6 +1558,8 @@ class ShortcutNode(ListNode):
         self._nodes = collections.deque()
         self._original = []
         self._full = False
+        # whether the first value of this shortcut is the last value of the previous shortcut
+        self._shares_edge = False
         self._num_node = ValueNode(None, float, never_pad=True)
         if p is not None:
             for search_strs, shortcut in self._shortcut_names.items():
@@ -1563,6 +1570,7 @@ class ShortcutNode(ListNode):
             if self._type is None:
                 raise ValueError("must use a valid shortcut")
             self._original = list(p)
+            self._shares_edge = isinstance(p[0], ListNode)
             if self._type == Shortcuts.REPEAT:
                 self._expand_repeat(p)
             elif self._type == Shortcuts.MULTIPLY:
